@@ -559,6 +559,20 @@ def _run_aggs(case):
 
 @st.composite
 def agg_cases(draw, tier):
+    if draw(st.integers(0, 7)) == 0:
+        # GROUP_CONCAT over groups that hold nothing but plain literals, empty strings and strings made of the separator among them
+        # (the general cases below mostly have IRIs or blank nodes in the group, for which the result is not determined)
+        strs = [gs.LITS[5], gs.LITS[4], ["l", " ", None, None], ["l", "|", None, None], ["l", "a b", None, None], ["l", "z", None, None]]
+        subs = [gs.NODES[0], gs.NODES[1]]
+        p = draw(st.sampled_from(gs.PREDS))
+        data = {"default": draw(st.lists(st.tuples(st.sampled_from(subs), st.just(p), st.sampled_from(strs)).map(list), min_size=2, max_size=6, unique_by=repr)),
+                "g1": [], "g2": []}
+        pat = ["bgp", [[["v", "s"], p, ["v", "o"]]]]
+        aggs = [["n0", "group_concat", ["var", "o"], draw(st.booleans()), draw(st.sampled_from([None, "|", ", "])), None]]
+        if draw(st.booleans()):
+            aggs.append(["n1", "count", ["var", "o"], False, None, None])
+        return {"mode": "aggs", "data": data, "pattern": pat, "keys": draw(st.sampled_from([[], ["s"]])), "aggs": aggs, "having": None, "order": None,
+                "limit": None, "hide_keys": False, "anon_keys": False, "derived": None}
     data = {"default": draw(st.lists(st.tuples(st.sampled_from(gs.NODES), st.sampled_from(gs.PREDS), st.one_of(st.sampled_from(AGG_LITS), st.sampled_from(AGG_LITS[:4] + AGG_LITS[-5:] + [gs.LITS[5], gs.LITS[4]]), st.sampled_from(gs.NODES))).map(list),
                                      min_size=3, max_size=10, unique_by=repr)), "g1": [], "g2": []}
     pool = data["default"]
